@@ -6,7 +6,7 @@ res = {}
 for lp in sys.argv[1:]:
     cur = None
     for line in open(lp):
-        m = re.match(r'(/tmp/mut/(C\d\d)/([A-Z])): demo clean=(\w+) mutant=(\w+) repo-tests=(\w+) \| (.*)', line)
+        m = re.match(r'(/tmp/mut7?/(C\d\d)/([A-Z])): demo clean=(\w+) mutant=(\w+) repo-tests=(\w+) \| (.*)', line)
         if m:
             cur = dict(dir=m.group(1), prop=m.group(2), m=m.group(3), clean=m.group(4), mut=m.group(5), tests=m.group(6), files=m.group(7).strip(), checks={})
             res[(cur["prop"], cur["m"])] = cur
